@@ -982,6 +982,11 @@ where
                     &mut b
                 }
             };
+            // The buffer is cleared after every event, but if formatting a
+            // previous event panicked (for example in a user's `Debug`
+            // implementation) and the panic was caught, whatever had been
+            // formatted so far is still in it.
+            buf.clear();
 
             let ctx = self.make_ctx(ctx, event);
             if self
